@@ -266,7 +266,27 @@ def run(ctx: core.Ctx) -> int:
     fit = core.need(core.find_func(cls, "fit"), q("fit"))
     where = f"{F}:{q('fit')}"
     fit = normast.Normaliser(None).function(fit)                # guard clauses / swapped arms normalised; no inlining (minimize_this is a closure)
-    body = fit.body
+    swallowed = []
+
+    def lin(stmts):
+        """the statements in the order a normal run executes them: try bodies, their else / finally parts and with bodies are part of the sequence"""
+        out = []
+        for s_ in stmts:
+            if isinstance(s_, ast.Try):
+                for h in s_.handlers:
+                    catches = h.type is None or any(n_ in ast.unparse(h.type) for n_ in ("Exception", "BaseException", "MinimizationFailure"))
+                    if catches and not (h.body and isinstance(h.body[-1], ast.Raise)):
+                        swallowed.append(h.lineno)
+                out += lin(s_.body) + lin(s_.orelse) + lin(s_.finalbody)
+            elif isinstance(s_, ast.With):
+                out += lin(s_.body)
+            else:
+                out.append(s_)
+        return out
+    body = lin(fit.body)
+    ctx.oblige("FIT", where, f"{len(swallowed)} handler(s) around the optimisation that swallow its failure", not swallowed, file=F, func=q("fit"), construct="failure swallowed",
+               msg=f"an exception handler in fit (line {swallowed[0] if swallowed else '?'}) catches the optimiser's failure without re-raising it")
+    fit_param_integrity(ctx, cls, fit, "FIT")
     # the optimiser's result: whatever name `minimize(...)` is assigned to
     RN = next((s_.targets[0].id for s_ in body if isinstance(s_, ast.Assign) and len(s_.targets) == 1 and isinstance(s_.targets[0], ast.Name)
                and isinstance(s_.value, ast.Call) and ast.unparse(s_.value.func).split(".")[-1] == "minimize"), "result")
@@ -314,6 +334,122 @@ def run(ctx: core.Ctx) -> int:
                                         "scoring-vector writer/reader", **META)
 
 
+def fit_param_integrity(ctx: core.Ctx, cls: ast.ClassDef, fit: ast.FunctionDef, rule: str):
+    """FIT (parameters): when fit returns, every non-noise parameter attribute holds what the caller set.  fit may install a temporary value for its
+    own purposes (`self.config = <cheaper config>`, `self.set_params(extra_validation=False)`) if it puts the caller's back -- and what it finally
+    applies with `set_params(**solution)` carries, for the non-noise keys, whatever was installed when the solution (`_inverse_flatten_scoring_params`,
+    built on get_params) was READ.  Abstract value per parameter: orig | changed | maybe (set again after a change: possibly restored).  A captured
+    snapshot (`c = self.config`, `h = self.get_params()`, `s = self._inverse_flatten_scoring_params(..)`) remembers the values at the capture and
+    gives them back when applied.  Statement order over try / finally / with; the arms of an `if` are joined."""
+    keys = []
+    for st in cls.body:
+        if isinstance(st, ast.Assign) and len(st.targets) == 1 and isinstance(st.targets[0], ast.Name) and st.targets[0].id == "allowed_keys" \
+                and isinstance(st.value, (ast.List, ast.Tuple)):
+            keys = [e.value for e in st.value.elts if isinstance(e, ast.Constant) and isinstance(e.value, str)]
+    if not keys:
+        ctx.error(f"{F}:{CLS}: allowed_keys is not a list of names (FIT parameter integrity)")
+        return
+    fixed = [k for k in keys if k not in ("process_noise", "sensor_noises")]
+    where = f"{F}:{CLS}.fit"
+    notes = []
+
+    def own(stmt):
+        stack = [stmt]
+        while stack:
+            n = stack.pop()
+            yield n
+            for ch in ast.iter_child_nodes(n):
+                if isinstance(ch, (ast.FunctionDef, ast.Lambda, ast.ClassDef)):
+                    continue
+                stack.append(ch)
+
+    def join(a, b):
+        return a if a == b else ("changed" if "changed" in (a, b) else "maybe")
+
+    def snapshot_call(v):
+        gp = v.args[0] if isinstance(v, ast.Call) and isinstance(v.func, ast.Name) and v.func.id in ("dict", "copy", "deepcopy") and len(v.args) == 1 else v
+        return isinstance(gp, ast.Call) and isinstance(gp.func, ast.Attribute) and ast.unparse(gp.func.value) == "self" \
+            and gp.func.attr in ("get_params", "_inverse_flatten_scoring_params")
+
+    def apply_set_params(n, state, caps):
+        for kw in n.keywords:
+            if kw.arg is None:
+                src = kw.value
+                if isinstance(src, ast.Name) and isinstance(caps.get(src.id), dict):
+                    snap = caps[src.id]
+                    for k in fixed:
+                        if state[k] != snap[k] or snap[k] != "orig":
+                            notes.append((n.lineno, k, snap[k], f"`set_params(**{src.id})` applies the value `{k}` had where `{src.id}` was read (line {snap['__line__']})"))
+                        state[k] = snap[k]
+                elif snapshot_call(src):
+                    pass                                   # read and applied at once: nothing changes for the non-noise keys
+                else:
+                    for k in fixed:
+                        state[k] = "maybe" if state[k] != "orig" else "changed"
+            elif kw.arg not in ("process_noise", "sensor_noises"):
+                k = kw.arg if kw.arg in fixed else "config"
+                if k in state:
+                    state[k] = "maybe" if state[k] != "orig" else "changed"
+                    notes.append((n.lineno, k, state[k], f"`set_params({kw.arg}=..)`"))
+
+    def run(stmts, state, caps):
+        for st in stmts:
+            if isinstance(st, (ast.FunctionDef, ast.ClassDef)):
+                continue
+            if isinstance(st, ast.If):
+                s1, c1 = run(st.body, dict(state), dict(caps))
+                s2, c2 = run(st.orelse, dict(state), dict(caps))
+                state = {k: join(s1[k], s2[k]) for k in state}
+                caps = {k: v for k, v in c1.items() if c2.get(k) == v}
+                continue
+            if isinstance(st, ast.Try):
+                state, caps = run(st.body, state, caps)
+                state, caps = run(st.orelse, state, caps)
+                state, caps = run(st.finalbody, state, caps)
+                continue
+            if isinstance(st, (ast.With, ast.For, ast.While)):
+                state, caps = run(st.body, state, caps)
+                continue
+            for n in own(st):
+                if isinstance(n, ast.Call) and isinstance(n.func, ast.Name) and n.func.id in ("setattr", "delattr") and n.args and ast.unparse(n.args[0]) == "self":
+                    for k in fixed:
+                        state[k] = "maybe" if state[k] != "orig" else "changed"
+                if isinstance(n, ast.Call) and isinstance(n.func, ast.Attribute) and isinstance(n.func.value, ast.Name) and n.func.value.id == "self" \
+                        and n.func.attr == "set_params":
+                    apply_set_params(n, state, caps)
+            if isinstance(st, ast.Assign):
+                for t in st.targets:
+                    v = st.value
+                    if isinstance(t, ast.Attribute) and isinstance(t.value, ast.Name) and t.value.id == "self" and t.attr in fixed:
+                        if isinstance(v, ast.Name) and isinstance(caps.get(v.id), tuple) and caps[v.id][0] == t.attr:
+                            state[t.attr] = caps[v.id][1]
+                        else:
+                            state[t.attr] = "maybe" if state[t.attr] != "orig" else "changed"
+                            notes.append((st.lineno, t.attr, state[t.attr], f"`{ast.unparse(st)[:60]}`"))
+                    elif isinstance(t, ast.Name):
+                        if isinstance(v, ast.Attribute) and isinstance(v.value, ast.Name) and v.value.id == "self" and v.attr in fixed:
+                            caps[t.id] = (v.attr, state[v.attr])
+                        elif snapshot_call(v):
+                            caps[t.id] = dict(state, __line__=st.lineno)
+                        else:
+                            caps.pop(t.id, None)
+            elif isinstance(st, ast.AugAssign) and isinstance(st.target, ast.Attribute) and isinstance(st.target.value, ast.Name) \
+                    and st.target.value.id == "self" and st.target.attr in fixed:
+                state[st.target.attr] = "changed"
+        return state, caps
+    end, _ = run(fit.body, {k: "orig" for k in fixed}, {})
+    left = [k for k in fixed if end[k] == "changed"]
+    undec = [k for k in fixed if end[k] == "maybe"]
+    if undec and not left:
+        ctx.error(f"{where}: cannot decide whether {undec} hold the caller's values when fit returns (replaced and then set again: "
+                  + "; ".join(f"line {ln}: {m}" for ln, k, s_, m in notes if k in undec)[:300] + ")")
+    how = "; ".join(f"line {ln}: {m} leaves `{k}` {s_}" for ln, k, s_, m in notes if k in left)
+    ctx.oblige(rule, where, f"non-noise parameters {fixed} hold the caller's values when fit returns", not left, file=F,
+               func=f"{CLS}.fit", construct="fit parameter integrity" + (": " + ",".join(left) if left else ""),
+               msg=f"fit returns with its own value of {left} installed instead of the caller's ({how}): fitting changed something other than the noise "
+                   f"magnitudes, and a grid search's refit loses the selected value", line=next((ln for ln, k, s_, m in notes if k in left), fit.lineno))
+
+
 def _paths(stmts, prefix=None):
     """every execution path through a statement list as an ordered sequence of ("stmt", node) / ("cond", test, polarity); loops are opaque statements"""
     out = [list(prefix or [])]
@@ -355,10 +491,24 @@ def input_pure(ctx: core.Ctx, mod: ast.Module, rule="INPUT-PURE"):
         params = {a.arg for a in fn.args.posonlyargs + fn.args.args + fn.args.kwonlyargs} - {"self", "cls"}
         # attributes / locals that are plain aliases of a parameter
         alias = {}
-        for a in ast.walk(fn):
-            if isinstance(a, ast.Assign) and isinstance(a.value, ast.Name) and a.value.id in params:
-                for t in a.targets:
-                    alias[ast.unparse(t)] = a.value.id
+
+        def given_root(v):
+            """the parameter a value is a part of, when the value is the parameter itself or reached from it by attribute / item access (no call in
+            between: `dict(p)`, `p.copy()`, a comprehension make a new object)"""
+            while isinstance(v, (ast.Attribute, ast.Subscript)):
+                v = v.value
+            if isinstance(v, ast.Name):
+                if v.id in params:
+                    return v.id
+                return alias.get(v.id)
+            return None
+        for a in sorted((x for x in ast.walk(fn) if isinstance(x, ast.Assign)), key=lambda x: (x.lineno, x.col_offset)):
+            r = given_root(a.value) if isinstance(a.value, (ast.Name, ast.Attribute, ast.Subscript)) else None
+            for t in a.targets:
+                if r is not None and isinstance(t, (ast.Name, ast.Attribute)):
+                    alias[ast.unparse(t)] = r
+                elif isinstance(t, ast.Name) and t.id not in params:
+                    alias.pop(t.id, None)          # re-bound to something of the function's own
         # parameters that the function itself replaces by a fresh object first (`calibration_map = {}` under `is None`) stay parameters: a later
         # store would still hit the caller's object on the other path
         bad = []
